@@ -242,7 +242,17 @@ def rule_claims_replaced(ctx):
     shared.check_claims_replaced(ctx)
 
 
+def rule_pool_initialised(ctx):
+    """R-C12-9: the pool of available resources is what the command line gives."""
+    si = ctx.prog.func("scheduler.Scheduler.initialize")
+    ok = any(callee_name(c) == "executemany" and c.args and ast.unparse(c.args[0]) == "INSERT_AVAILABLE_RESOURCE" and len(c.args) > 1 and "parse_resources(" in ast.unparse(c.args[1]) for c in calls_in(si.node))
+    ctx.check(ok, si.fq, "the available units are inserted from the parsed --resources option", "the pool is never filled: every step that claims a resource is reported as unsatisfiable (or, with a stale table, admitted against the wrong pool)", "executemany(INSERT_AVAILABLE_RESOURCE, parse_resources(...))", where=ctx.where_of(si))
+    emp = [c for c in calls_in(si.node) if callee_name(c) == "execute" and c.args and ast.unparse(c.args[0]) == "EMPTY_AVAILABLE_RESOURCE"]
+    ctx.ok(si.fq, "the pool table is emptied first" if emp else "the pool table is not emptied (a fresh TEMP table per connection)", "EMPTY_AVAILABLE_RESOURCE")
+
+
 RULES = [
+    Rule("R-C12-9", "the resource pool is initialised from the command line", rule_pool_initialised, min_instances=1),
     Rule("R-C12-8", "steps (re)attached inside a hold block are re-examined (hold clause relies on the _safe recomputation)", C10.rule_step_overrides, min_instances=8),
     Rule("R-C12-7", "resource claims are replaced on declaration", rule_claims_replaced, min_instances=7),
     Rule("R-C12-1", "tasks start only inside the slot budget", rule_slots, min_instances=8),
@@ -254,6 +264,7 @@ RULES = [
 ]
 
 MUTANTS = [
+    Mutant("pool-never-filled", "scheduler.py", in_function("Scheduler.initialize", lambda t: __import__("re").sub(r"\n( +)self\.db\.executemany\(\s*INSERT_AVAILABLE_RESOURCE,[^\n]*(?:\n[^\n]*)*?\n\1\)\n|\n( +)self\.db\.executemany\(INSERT_AVAILABLE_RESOURCE,[^\n]*\)\n", lambda m: "\n" + (m.group(1) or m.group(2)) + "pass\n", t, count=1) if "INSERT_AVAILABLE_RESOURCE" in t else None), ("R-C12-9",)),
     Mutant("declared-none-keeps-old-claims", "workflow.py", in_function("Workflow.define_step", replace_once("        step.set_resources(resources)\n", "        if resources:\n            step.set_resources(resources)\n")), ("R-C12-7",)),
     Mutant("claims-merged-not-replaced", "step.py", in_function("Step.set_resources", lambda t: t.replace('"DELETE FROM step_resource WHERE node = ?", (self.i,)', '"DELETE FROM step_resource WHERE node = ? AND name NOT IN (SELECT value FROM json_each(?))", (self.i, "[]")', 1).replace('"INSERT INTO step_resource VALUES (?, ?, ?)"', '"INSERT INTO step_resource VALUES (?, ?, ?) ON CONFLICT DO NOTHING"', 1) if '"DELETE FROM step_resource WHERE node = ?", (self.i,)' in t else None), ("R-C12-7",)),
     Mutant("old-claims-kept", "step.py", in_function("Step.set_resources", replace_once('        self.db.execute("DELETE FROM step_resource WHERE node = ?", (self.i,))\n', "")), ("R-C12-7",)),
